@@ -14,7 +14,7 @@ META = {
             "(before the parser is back at the dispatcher) can consume a token that starts a definition (`@`, `pub`, "
             "`opaque` or a dispatch keyword, all read from statement()/attributes()); B5 nor report an error there (the "
             "error would carry the range of the next definition's first token). One obligation per consumption "
-            "site / owner / keyword.",
+            "site / owner / keyword. B6 every node a parser function opens is finished on every path (marks balanced): an open node left behind would swallow the definitions that follow.",
     "explanation": "For damage that keeps a body's braces balanced and adds no opener, the only way the parser can "
                    "touch a token of a following definition is that a construct nested in the body consumes the `}` of "
                    "an enclosing construct. Engine P knows, for every call of bump/bump_with_error/eat/expect in every "
@@ -191,6 +191,13 @@ def run(F, res, tier):
                how=("may report errors at %d kinds there, none of them a definition start" % len(v["kinds"])) if not bad else
                "reports an error at %s, the first token of the following definition; call chain %s" % (bad, v["ctx"]))
     res.analysed["error_sites_running_after_a_stray_closer"] = n_err
+    # ---- B6: nodes are closed where they were opened. An Open event without its Close makes every later Close finish the wrong
+    # node: all following definitions end up inside the damaged one (and the builder asserts).
+    leaks = R["leak_sites"]
+    res.ob("B6", "marks-balanced", "every node a parser function opens is finished (or handed on) on every path, so an error inside one definition "
+           "cannot leave a node open across the definitions that follow (decided per mark in C02/P7)", not leaks,
+           where="crates/syntax/src/parser.rs:%s" % (sorted(leaks.values(), key=lambda x: str(x.get("line")))[0].get("line") if leaks else ""),
+           how="%d start_node / start_node_before sites, unbalanced: %s" % (len(R["marks"]), sorted(leaks)[:4]))
 
 
 def thorough(F, res):
